@@ -1527,6 +1527,106 @@ pub fn run_c16_continuation(ctx: &mut Ctx) {
 }
 
 // ---------------------------------------------------------------------------------------------
+// C07, black-box: nothing panics in the two-thread composition
+
+/// One batch of timed searches on the real binary; returns (searches, sessions whose stderr shows a
+/// panic, one example line).
+fn panic_batch(sessions: usize, seed: u64, workers: usize) -> Result<(u64, u64, Option<String>), String> {
+    let fens: Vec<String> = gamelike_indices().into_iter().map(|i| corpus_pos(i).fen()).collect();
+    let result: std::sync::Mutex<(u64, u64, Option<String>, Option<String>)> = std::sync::Mutex::new((0, 0, None, None));
+    std::thread::scope(|sc| {
+        for w in 0..workers {
+            let fens = &fens;
+            let result = &result;
+            sc.spawn(move || {
+                let mut i = w;
+                while i < sessions {
+                    let r = (|| -> Result<(u64, Option<String>), String> {
+                        let mut e = Engine::spawn()?;
+                        e.handshake()?;
+                        let mut n = 0;
+                        for j in 0..6u64 {
+                            let h = mix(seed ^ ((i as u64) << 8) ^ j);
+                            let f = &fens[(h % fens.len() as u64) as usize];
+                            let slice = 20 + (h >> 20) % 41;
+                            let clock = 100 + slice * 30 * 10 / 8 + 1;
+                            e.send(&format!("position fen {}", f));
+                            let go = format!("go wtime {} btime {}", clock, clock);
+                            let _ = do_go(&mut e, &go, slice)?;
+                            n += 1;
+                        }
+                        e.send("quit");
+                        e.wait_exit(Duration::from_secs(2));
+                        std::thread::sleep(Duration::from_millis(5));
+                        Ok((n, e.panicked()))
+                    })();
+                    let mut g = result.lock().unwrap();
+                    match r {
+                        Ok((n, p)) => {
+                            g.0 += n;
+                            if let Some(line) = p {
+                                g.1 += 1;
+                                g.2.get_or_insert(line);
+                            }
+                        }
+                        Err(m) => {
+                            g.3.get_or_insert(m);
+                        }
+                    }
+                    i += workers;
+                }
+            });
+        }
+    });
+    let g = result.into_inner().unwrap();
+    if let Some(m) = g.3 {
+        if m.starts_with("HARNESS:") {
+            return Err(m);
+        }
+    }
+    Ok((g.0, g.1, g.2))
+}
+/// The unchanged engine has a microsecond window in which its search thread can lose the race for
+/// the channel and die with a message on stderr (measured: 0 in 1,600 searches); a defect that widens
+/// the window shows as a panic in a sizeable share of timed searches. Rule: three or more panicking
+/// sessions in a batch, confirmed by three or more in a second batch.
+pub fn run_c07_panic_rate(ctx: &mut Ctx) {
+    let family = "real_binary_search_thread_survives_timed_searches";
+    if family_filtered_out(family) {
+        return;
+    }
+    let sessions = ctx.n(120, 1_500) as usize;
+    let mut st = Stats::new();
+    match panic_batch(sessions, ctx.seed, 8) {
+        Err(m) => ctx.harness_errors.push(format!("{}: {}", family, m)),
+        Ok((n, panics, example)) => {
+            st.evals(n);
+            st.nontrivial_by_construction = n; // every timed search has the deadline race in it
+            st.label_n("sessions_with_a_panic_on_stderr", panics);
+            st.sample(|| json!({"sessions": sessions, "timed_searches": n, "slices_ms": "20..60"}));
+            if panics >= 3 {
+                match panic_batch(sessions, ctx.seed ^ 0x5eed, 8) {
+                    Ok((n2, p2, _)) if p2 >= 3 => {
+                        ctx.violation(family, json!({"stderr_panic_rate": true, "sessions": sessions}), format!("a thread of the real binary panicked in {} of {} sessions of six timed searches (20-60 ms slices), and in {} of {} sessions of a second batch ({} searches): {}", panics, sessions, p2, sessions, n + n2, example.unwrap_or_default()));
+                    }
+                    _ => st.label("panics_not_confirmed_by_a_second_batch"),
+                }
+            }
+        }
+    }
+    ctx.family_done(family, st, json!({"driver": "enumeration of generated sessions (statistical rule)", "sessions": sessions}));
+}
+pub fn replay_c07_panic_rate(case: &Value) -> CaseResult {
+    let sessions = case.get("sessions").and_then(|x| x.as_u64()).unwrap_or(120) as usize;
+    let (n, p, ex) = panic_batch(sessions, 1, 8)?;
+    if p >= 3 {
+        Err(format!("{} of {} sessions ({} timed searches) show a panic on stderr: {}", p, sessions, n, ex.unwrap_or_default()))
+    } else {
+        Ok(())
+    }
+}
+
+// ---------------------------------------------------------------------------------------------
 // C10, black-box: the search started by `go` sees the whole game record
 
 /// The real binary's `position ... moves ...` + timed `go` against a DIRECT call of the search on the
